@@ -216,7 +216,7 @@ fn steps(obs: &[String]) -> Vec<Vec<String>> {
 
 fn client_part(rep: &mut Report) {
     let thorough = rep.thorough();
-    let depth = if thorough { 7 } else { 5 };
+    let depth = if thorough { 7 } else { 6 };
     let low = SmCfg { cap: 16, max_timeouts: Some(2), retry_min: 3, retry_max: 12, handles: 1, decode: LOW };
     let high = SmCfg { decode: HIGH, ..low.clone() };
     // enumerate the complete paths of the C10/C11/C12 alphabet at the quick bound, model-only
@@ -329,7 +329,7 @@ pub fn check_c20(tier: &str) -> i32 {
         "model_checking",
         "differential + reference-model oracle: every server request sequence (24-symbol alphabet, depth D, TCP/RTU/with authorization), every framing stream of the C05/C06 material under every chunking of the quick bound, and every complete client event path (C10/C11/C12 alphabet, depth D, <= 2 deviations) is executed at DecodeLevel::nothing(), at the highest level, and with a set_decode_level command (server handle / client handle) inserted at every position of the script, in both directions; wire bytes, handler logs, request results with their virtual instants, listener logs and task end must be identical (the decode command itself being the only permitted difference). A formatting tracing subscriber proves that the decode paths really ran at the high level",
     );
-    rep.bounds = json!({"server_depth": if rep.thorough() { 3 } else { 2 }, "client_depth": if rep.thorough() { 7 } else { 5 }});
+    rep.bounds = json!({"server_depth": if rep.thorough() { 3 } else { 2 }, "client_depth": if rep.thorough() { 7 } else { 6 }});
     server_part(&mut rep);
     client_part(&mut rep);
     for c in ["decode-output-observed", "server-sequence-low-vs-high", "server-sequence-level-change", "server-stream-low-vs-high", "server-stream-level-change-between-chunks", "client-path-low-vs-high", "client-path-level-change"] {
